@@ -357,3 +357,6 @@ class GHE(BaseGHE):
         )
 
         self.bhe.b.H = returned_height
+        # The solver's last evaluation is not necessarily at the returned height (e.g. when the height is clamped
+        # at a bound): make the stored temperatures those of the returned design
+        self.simulate(method=method)
